@@ -27,7 +27,7 @@ echo "== $P/$V: $base; $dres"
 ids="$P $*"
 caught=""
 for id in $ids; do
-  mkdir -p "$W/evidence"; out=$(cd /verif && VERIF_EVIDENCE_DIR="$W/evidence" VERIF_SRC="$W/mut" ./run.sh $id quick 2>&1); rc=$?
+  mkdir -p "$W/evidence"; out=$(cd "${VERIF_HOME:-/verif}" && VERIF_EVIDENCE_DIR="$W/evidence" VERIF_SRC="$W/mut" ./run.sh $id quick 2>&1); rc=$?
   echo "   check $id quick on the changed tree: rc=$rc  $(echo "$out" | grep -E "^$id quick:" | cut -c1-120)"
   echo "$out" | grep -E "VIOLATION|what:" | head -4 | cut -c1-260
   [ $rc -eq 1 ] && caught="$caught $id"
